@@ -20,12 +20,12 @@ def get_deps_paths() -> List[pathlib.Path]:
             "The {} environment variable was not set. Make sure your code is "
             "being executed by Conductor.".format(DEPS_ENV_VARIABLE_NAME)
         )
-    return list(
-        map(
-            pathlib.Path,
-            os.environ[DEPS_ENV_VARIABLE_NAME].split(DEPS_ENV_PATH_SEPARATOR),
-        )
-    )
+    deps_paths = os.environ[DEPS_ENV_VARIABLE_NAME]
+    if len(deps_paths) == 0:
+        # The task has no dependencies (an empty string would otherwise turn
+        # into the path ".").
+        return []
+    return list(map(pathlib.Path, deps_paths.split(DEPS_ENV_PATH_SEPARATOR)))
 
 
 def get_output_path() -> pathlib.Path:
